@@ -82,6 +82,13 @@ func (f *Track3) Unpack(data []byte) (int, error) {
 		if err != nil {
 			return 0, err
 		}
+	} else {
+		// an empty track has no components: forget those a previous Unpack
+		// or SetBytes left behind
+		f.FormatCode, f.PrimaryAccountNumber, f.DiscretionaryData = "", "", ""
+		if f.data != nil {
+			*(f.data) = *f
+		}
 	}
 
 	return bytesRead, nil
